@@ -119,7 +119,21 @@ pub fn c13(known: &Known, full: bool) -> SessionScenario {
         witness: None,
         witness_script: vec![],
         dedup: true,
+        tolerated: Default::default(),
     }
+}
+
+/// Findings of C08 that only change what the requesting client itself is told or sees (a publish on
+/// a `$SYS` key is delivered): they neither stop the server nor touch another session, so C17 lets
+/// the reference follow the server there without reporting; C08 reports them.
+fn c17_tolerated() -> std::collections::BTreeSet<String> {
+    [crate::model::SIG_PUBLISH.to_owned()].into_iter().collect()
+}
+
+fn c17_switches(known: &Known) -> std::collections::BTreeSet<String> {
+    let mut open = known.open_for("C17");
+    open.extend(c17_tolerated());
+    open
 }
 
 /// C17: an adversary (session 0) sends anything; the witness (session 1) must keep getting
@@ -174,11 +188,12 @@ pub fn c17(known: &Known, full: bool) -> SessionScenario {
         property: "C17".into(),
         clients: vec![0, 1],
         lines,
-        candidates: crate::model::Flags::candidates(&known.open_for("C17")),
+        candidates: crate::model::Flags::candidates(&c17_switches(known)),
         check_all: true,
         witness: Some(1),
         witness_script: witness_script(),
         dedup: false,
+        tolerated: c17_tolerated(),
     }
 }
 
@@ -251,10 +266,11 @@ pub fn c17_keys(known: &Known) -> SessionScenario {
         property: "C17".into(),
         clients: vec![0, 1],
         lines,
-        candidates: crate::model::Flags::candidates(&known.open_for("C17")),
+        candidates: crate::model::Flags::candidates(&c17_switches(known)),
         check_all: true,
         witness: Some(1),
         witness_script: witness_script(),
         dedup: false,
+        tolerated: c17_tolerated(),
     }
 }
